@@ -28,6 +28,11 @@ func InitGenesis(
 	// Set genesis state
 	maxSupply := data.MaxSupply
 	k.SetMaxSupply(ctx, maxSupply)
+
+	// restore the timestamp of the last minting block that ExportGenesis wrote
+	if !data.PrevBlockTs.IsNil() && data.PrevBlockTs.IsPositive() {
+		k.SetPrevBlockTS(ctx, data.PrevBlockTs)
+	}
 }
 
 // ExportGenesis returns a GenesisState for a given context and keeper.
